@@ -42,15 +42,21 @@ ASSUMPTIONS = [
     'of some qudit permutation that puts location[i] at position i',
 ]
 BOUNDS = {
-    'quick': 'every labelled graph on n<=5 vertices for the argument-free methods and the one-integer methods, '
-             'n<=4 for locations/renumberings/embedding pairs/equality pairs/edge orders/ignored-edge lists/remote '
-             'edges, n<=3 for weighted edges; sparse graphs (<=2 edges) on 10 vertices for get_subgraphs_of_size; '
-             'relabel_subgraph on 3 vertices with labels <=8; constructors up to 6 qudits / 3x3 grids; '
-             '(P) <=4 qubits, <=3 qutrits',
-    'thorough': 'n<=6 for argument-free methods, n<=5 for one-integer methods, subsets x all orders x all '
-                'renumberings on n=5, embedding pairs up to (4,5), remote edges n<=5, weighted n<=4, sparse graphs '
-                '(<=3 edges) on 12 vertices, relabel on 4 vertices with labels <=11; (P) <=5 qubits, <=4 qutrits, '
-                '<=3 ququarts',
+    'quick': 'every labelled graph on n<=5 vertices for is_fully_connected / degrees / all-pairs distances / is_linear / '
+             'get_neighbors_of / get_shortest_path_tree / is_fully_connected_without (every qudit argument); n<=4 for '
+             'get_subgraphs_of_size (sizes -1..n+1), get_rooted_minimum_span (every root), get_subgraph (every ordered '
+             'location of <=3 qudits at n=4, default and every renumbering), get_induced_subgraph (every ordered '
+             'location), is_embedded_in and == on every pair of graphs, every edge-list order (hash), maximal_matching '
+             '(every ignore list in both orientations; every shuffle outcome), absent/local/remote edges (QPU views); '
+             'n<=3 for constructor arguments and weighted edges (remote + one override); every graph with <=2 edges on '
+             '10 vertices for get_subgraphs_of_size(1..3); relabel_subgraph on 3 vertices with labels 0..8; '
+             'all_to_all/linear/ring/star up to 6 qudits, grids up to 3x3; (P) <=4 qubits, <=3 qutrits, swap radix <=5',
+    'thorough': 'as quick, with n<=6 for the argument-free methods and is_linear, n<=5 for the one-integer methods, '
+                'get_subgraph on n=4 with every location and on n=5 with every subset x every order x every '
+                'renumbering (orders/renumberings enumerated inside the path), get_induced_subgraph n=5 (<=3 qudits), '
+                'embedding pairs (<=4, 5) and (5, 3), matching n=5 (ignore lists, one orientation), qudit->QPU map n=5, '
+                'weighted n=4, constructor n=4, <=2 edges on 12 vertices and 3 edges on 10 vertices, relabel on 3-4 '
+                'vertices with labels 0..11, topologies up to 8 qudits / 4x4; (P) 5 qubits, 4 qutrits, <=3 ququarts',
 }
 OUTSIDE = ('graphs on more than 6 vertices other than the sparse family; random graphs up to 12 vertices of the '
            'statement (sampling is not this technique); more than one overridden edge weight; invalid arguments '
